@@ -62,13 +62,42 @@ func propC17(c *Check) {
 			c.Held("R1", name, "", gen)
 		}
 	}
+	// the recipe with a given head among the alternatives of the captured expressions: a program obtained from a
+	// shared helper is the φ of the helper's per-key-type results, so both sides carry both recipes
+	allMatches := func(re string, ss []string) []string {
+		r := regexp.MustCompile(re)
+		var out []string
+		for _, s := range ss {
+			if m := r.FindStringSubmatch(s); m != nil {
+				out = append(out, m[1])
+			}
+		}
+		return out
+	}
+	recipe := func(captures []string, head string) string {
+		var found []string
+		for _, cpt := range captures {
+			alts := []string{cpt}
+			if strings.HasPrefix(cpt, "φ{") && strings.HasSuffix(cpt, "}") && balancedTop(cpt[len("φ{"):len(cpt)-1]) {
+				alts = splitTop(cpt[len("φ{") : len(cpt)-1])
+			}
+			for _, a := range alts {
+				if strings.HasPrefix(a, head) {
+					found = append(found, a)
+				}
+			}
+		}
+		found = dedupe(found)
+		if len(found) == 1 {
+			return found[0]
+		}
+		return ""
+	}
+	bProg := append(allMatches(`^btcutil\.NewAddressWitnessScriptHash\((.*), \$2\)#0$`, p.returnsOf(g0, 0)), allMatches(`^btcutil\.NewAddressTaproot\((.*), \$2\)#0$`, p.returnsOf(g0, 0))...)
+	vProg := allMatches(`^bytes\.Equal\((.*), \$2\[2:\]\)$`, facts(v0))
 	// V0 ECDSA: witness program = SHA256(script)
-	cmp("v0/ecdsa witness-program",
-		firstMatch(`^btcutil\.NewAddressWitnessScriptHash\((crypto\.SHA256Sum\(.*\)), \$2\)#0$`, p.returnsOf(g0, 0)),
-		firstMatch(`^bytes\.Equal\((crypto\.SHA256Sum\(.*\)), \$2\[2:\]\)$`, facts(v0)))
-	cmp("v0/schnorr witness-program",
-		firstMatch(`^btcutil\.NewAddressTaproot\((schnorr\.SerializePubKey\(.*\)), \$2\)#0$`, p.returnsOf(g0, 0)),
-		firstMatch(`^bytes\.Equal\((schnorr\.SerializePubKey\(.*\)), \$2\[2:\]\)$`, facts(v0)))
+	cmp("v0/ecdsa witness-program", recipe(bProg, "crypto.SHA256Sum("), recipe(vProg, "crypto.SHA256Sum("))
+	cmp("v0/schnorr witness-program", recipe(bProg, "schnorr.SerializePubKey("), recipe(vProg, "schnorr.SerializePubKey("))
 	cmp("v1 key-hash",
 		firstMatch(`^btcutil\.NewAddressWitnessPubKeyHash\((crypto\.Hash160Sum\(.*\)), \$3\)#0$`, p.returnsOf(g1, 0)),
 		firstMatch(`^bytes\.Equal\((crypto\.Hash160Sum\(.*\)), \$3\[2:\]\)$`, facts(v1)))
@@ -76,15 +105,15 @@ func propC17(c *Check) {
 		firstMatch(`^ScriptBuilder\.Script\(ScriptBuilder\.AddFullData\(ScriptBuilder\.AddOp\(txscript\.NewScriptBuilder\(nil\), 106\), (slices\.Concat\(\[\$1, \$2\]\))\)\)#0$`, p.returnsOf(g1, 1)),
 		firstMatch(`^bytes\.Equal\(\$4\[2:\], (slices\.Concat\(\[\$1, \$2\]\))\)$`, facts(v1)))
 	// the recipes themselves (roles: $1 = EVM address, key from the relayer public key)
-	key := "PublicKey.GetKey().(*relayer/types.PublicKey_Secp256K1)#0.Secp256K1"
+	key := "$0.Key.(*relayer/types.PublicKey_Secp256K1)#0.Secp256K1"
 	wantScript := "crypto.SHA256Sum([ScriptBuilder.Script(ScriptBuilder.AddOp(ScriptBuilder.AddData(ScriptBuilder.AddOp(ScriptBuilder.AddData(txscript.NewScriptBuilder(nil), $1), 117), " + key + "), 172))#0])"
-	if got := firstMatch(`^bytes\.Equal\((crypto\.SHA256Sum\(.*\)), \$2\[2:\]\)$`, facts(v0)); got == wantScript {
+	if got := recipe(vProg, "crypto.SHA256Sum("); got == wantScript {
 		c.Held("R1", "v0/ecdsa script = <evm> OP_DROP <key> OP_CHECKSIG", "", got)
 	} else {
 		c.Violated("R1", "v0/ecdsa script = <evm> OP_DROP <key> OP_CHECKSIG", "", "script recipe is "+got)
 	}
-	wantTap := "schnorr.SerializePubKey(txscript.ComputeTaprootOutputKey(schnorr.ParsePubKey(PublicKey.GetKey().(*relayer/types.PublicKey_Schnorr)#0.Schnorr)#0, $1))"
-	if got := firstMatch(`^bytes\.Equal\((schnorr\.SerializePubKey\(.*\)), \$2\[2:\]\)$`, facts(v0)); got == wantTap {
+	wantTap := "schnorr.SerializePubKey(txscript.ComputeTaprootOutputKey(schnorr.ParsePubKey($0.Key.(*relayer/types.PublicKey_Schnorr)#0.Schnorr)#0, $1))"
+	if got := recipe(vProg, "schnorr.SerializePubKey("); got == wantTap {
 		c.Held("R1", "v0/schnorr key tweaked by the EVM address", "", got)
 	} else {
 		c.Violated("R1", "v0/schnorr key tweaked by the EVM address", "", "recipe is "+got)
@@ -92,7 +121,7 @@ func propC17(c *Check) {
 	// R2 literals — every verifier success path passes them
 	lits := func(fn *ssa.Function, arg, keyFact string, n, op0, op1 string, name string) {
 		// conditional on the key type branch: success exits must pass either the other key type's assertion or these facts
-		other := `^PublicKey\.GetKey\(\)\.\(\*relayer/types\.PublicKey_\w+\)#1$`
+		other := `^\$0\.Key\.\(\*relayer/types\.PublicKey_\w+\)#1$`
 		_ = other
 		for what, pat := range map[string]string{
 			"length":  lit(EQ(n, "len("+arg+")")),
@@ -106,8 +135,8 @@ func propC17(c *Check) {
 			c.RequireFact(fn, "R2", name+" "+what, full, nil, "")
 		}
 	}
-	schnorrOK := lit("PublicKey.GetKey().(*relayer/types.PublicKey_Schnorr)#1")
-	ecdsaOK := lit("PublicKey.GetKey().(*relayer/types.PublicKey_Secp256K1)#1")
+	schnorrOK := lit("$0.Key.(*relayer/types.PublicKey_Schnorr)#1")
+	ecdsaOK := lit("$0.Key.(*relayer/types.PublicKey_Secp256K1)#1")
 	lits(v0, "$2", schnorrOK, "34", "0", "32", "v0/ecdsa p2wsh (OP_0 OP_DATA_32, 34 bytes)")
 	lits(v0, "$2", ecdsaOK, "34", "81", "32", "v0/schnorr p2tr (OP_1 OP_DATA_32, 34 bytes)")
 	lits(v1, "$3", "", "22", "0", "20", "v1 p2wpkh (OP_0 OP_DATA_20, 22 bytes)")
@@ -131,7 +160,7 @@ func propC17(c *Check) {
 	c.RequireFact(v1, "R3", "v1-verifier-ecdsa-only", ecdsaOK, nil, "")
 	c.RequireFact(v0, "R3", "v0-verifier-known-key-type", ecdsaOK+"|"+schnorrOK, nil, "")
 	c.RequireFact(g0, "R3", "v0-builder-known-key-type", ecdsaOK+"|"+schnorrOK, nil, "")
-	c.RequireFact(v0, "R3", "v0-verifier-program-compared", `^bytes\.Equal\(crypto\.SHA256Sum\(.*\), \$2\[2:\]\)$|^bytes\.Equal\(schnorr\.SerializePubKey\(.*\), \$2\[2:\]\)$`, nil, "")
+	c.RequireFact(v0, "R3", "v0-verifier-program-compared", `^bytes\.Equal\((φ\{)?crypto\.SHA256Sum\(.*[)}], \$2\[2:\]\)$|^bytes\.Equal\((φ\{)?schnorr\.SerializePubKey\(.*[)}], \$2\[2:\]\)$`, nil, "")
 	c.RequireFact(v1, "R3", "v1-verifier-keyhash-compared", `^bytes\.Equal\(crypto\.Hash160Sum\(.*\), \$3\[2:\]\)$`, nil, "")
 	c.RequireFact(v1, "R3", "v1-verifier-payload-compared", `^bytes\.Equal\(\$4\[2:\], slices\.Concat\(\[\$1, \$2\]\)\)$`, nil, "")
 	// no helper of a different key matrix is called from the verifiers
@@ -187,14 +216,20 @@ func propC17(c *Check) {
 			continue
 		}
 		n++
-		net := p.argStr(ci, 1)
-		if net == "bitcoin/types.BitcoinNetworks[Params.Get()#0.NetworkName]" {
-			c.RequireFact(e.From, "R4", "network-nil-guard", lit(NE("bitcoin/types.BitcoinNetworks[Params.Get()#0.NetworkName]", "nil")), instrSet([]ssa.Instruction{ci}), "address decoding")
-		} else {
-			c.Violated("R4", "network-argument @ "+FuncKey(e.From), p.InstrPos(ci), "address decoded for "+net+", not for the configured network")
+		for _, x := range p.contextsOf(e.From) {
+			net := x.r.E(ci.Common().Args[1])
+			where := FuncKey(e.From)
+			if x.call != nil {
+				where += " called from " + FuncKey(x.parent)
+			}
+			if net == "bitcoin/types.BitcoinNetworks[Params.Get()#0.NetworkName]" {
+				c.requireFactCtx(x, "R4", "network-nil-guard", lit(NE("bitcoin/types.BitcoinNetworks[Params.Get()#0.NetworkName]", "nil")), instrSet([]ssa.Instruction{ci}), "address decoding")
+			} else {
+				c.Violated("R4", "network-argument @ "+where, p.InstrPos(ci), "address decoded for "+net+", not for the configured network")
+			}
 		}
 	}
-	c.Floor("R4", "DecodeBtcAddress callers", n, 3)
+	c.Floor("R4", "DecodeBtcAddress callers", n, 1)
 	// a withdrawal whose address cannot be decoded is refunded at creation (status CANCELED + rejected queue): C05/R2
 	// system address verifier: structure
 	vs := p.MustFn("x/bitcoin/types.VerifySystemAddressScript")
@@ -202,7 +237,7 @@ func propC17(c *Check) {
 	rs := p.returnsOf(vs, 0)
 	okP := false
 	for _, s := range rs {
-		if s == "bytes.Equal(crypto.Hash160Sum(PublicKey.GetKey().(*relayer/types.PublicKey_Secp256K1)#0.Secp256K1), $1[2:])" {
+		if s == "bytes.Equal(crypto.Hash160Sum($0.Key.(*relayer/types.PublicKey_Secp256K1)#0.Secp256K1), $1[2:])" {
 			okP = true
 		}
 	}
